@@ -16,7 +16,8 @@
     panic, not out-of-fuel, not "invalid configuration", not any other error kind. *)
 From ClapModel Require Import Base.Bytes Base.Machine Base.Utf8.
 From ClapModel Require Import Parse.Cmd Parse.Build Parse.Valid Parse.Matcher Parse.Errors Parse.Validator Parse.Parser.
-From ClapModel Require Import ParseProofs.Safe ParseProofs.Totality ParseProofs.TotalityMain ParseProofs.FlagSubClass ParseProofs.FsTotality.
+From ClapModel Require Import ParseProofs.Safe ParseProofs.Totality ParseProofs.TotalityMain ParseProofs.FlagSubClass ParseProofs.FsTotality ParseProofs.FsAny.
+From ClapModel Require ParseProofs.Sites.
 From Coq Require Import ZArith Lia.
 From RecordUpdate Require Import RecordSet.
 Import RecordSetNotations.
@@ -273,4 +274,85 @@ Example ignore_errors_example :
   /\ map (fun l => outcome_kind (parse_top (ign_cmd <| c_gset := settings_none |>) l)) ign_lines
      = [Some (Some EDisplayHelpOnMissing); Some (Some EUnknownArgument); Some (Some EUnknownArgument);
         Some (Some EUnknownArgument); Some (Some EInvalidSubcommand); Some (Some EInvalidValue)].
+Proof. repeat split; vm_compute; reflexivity. Qed.
+
+(** * every definition the gate accepts (FsAny.v): the entry point *)
+Lemma unbuilt_bin_name c0 b : unbuilt (c0 <| c_bin_name := b |>) = unbuilt c0.
+Proof. apply unbuilt_frame; destruct c0; reflexivity. Qed.
+
+Definition only_920 (o : outcome) : Prop :=
+  match o with OPanicked s => s = 920 | OOutOfFuel => False | _ => True end.
+
+Theorem parse_top_only_920 c0 argv : unbuilt c0 = true -> valid c0 = true -> only_920 (parse_top c0 argv).
+Proof.
+  intros Hu Hv. unfold parse_top.
+  destruct (is_set s_no_binary_name c0); [apply do_parse_only_920; assumption|].
+  destruct argv as [|bin rest]; [apply do_parse_only_920; assumption|].
+  destruct (c_bin_name c0); [apply do_parse_only_920; assumption|].
+  destruct (utf8_valid bin && negb (is_nil bin)); [|apply do_parse_only_920; assumption].
+  apply do_parse_only_920; [rewrite unbuilt_bin_name; exact Hu|rewrite valid_bin_name; exact Hv].
+Qed.
+
+(** every [Modelled] row of the panic-site table other than the one debug assertion is dead for every valid definition *)
+Theorem sites_dead_any c0 toks : unbuilt c0 = true -> valid c0 = true ->
+  forall n, In n Sites.modelled_sites -> n <> 920 -> do_parse c0 toks <> OPanicked n.
+Proof.
+  intros Hu Hv n _ Hn H. pose proof (do_parse_only_920 c0 toks Hu Hv) as T. rewrite H in T. exact (Hn T).
+Qed.
+
+(** the error-ignoring contract for every valid definition: matches, help/version, or that one assertion *)
+Theorem parse_top_ignore_errors_any c0 argv :
+  unbuilt c0 = true -> valid c0 = true -> is_set s_ignore_errors c0 = true ->
+  match parse_top c0 argv with
+  | OOk _ => True
+  | OErr e => e_kind e = EDisplayHelp \/ e_kind e = EDisplayVersion
+  | OPanicked s => s = 920
+  | OOutOfFuel | OInvalidConfig => False
+  end.
+Proof.
+  intros Hu Hv Hig.
+  assert (D : forall c toks, unbuilt c = true -> valid c = true -> is_set s_ignore_errors c = true ->
+              match do_parse c toks with
+              | OOk _ => True
+              | OErr e => e_kind e = EDisplayHelp \/ e_kind e = EDisplayVersion
+              | OPanicked s => s = 920
+              | OOutOfFuel | OInvalidConfig => False
+              end).
+  { intros c toks Hu' Hv' Hig'.
+    pose proof (do_parse_only_920 c toks Hu' Hv') as T.
+    pose proof (do_parse_ignore_errors c toks) as I. rewrite ignore_errors_build_self in I. specialize (I Hig').
+    destruct (do_parse c toks) eqn:E; try exact I; try exact T.
+    unfold do_parse in E. rewrite Hv' in E. cbn [negb] in E.
+    destruct (get_matches_with _ _ _ _) as [st|e st|s]; try discriminate.
+    - destruct (_ && _); discriminate.
+    - destruct s; discriminate. }
+  unfold parse_top.
+  destruct (is_set s_no_binary_name c0); [apply D; assumption|].
+  destruct argv as [|bin rest]; [apply D; assumption|].
+  destruct (c_bin_name c0); [apply D; assumption|].
+  destruct (utf8_valid bin && negb (is_nil bin)); [|apply D; assumption].
+  apply D; [rewrite unbuilt_bin_name; exact Hu|rewrite valid_bin_name; exact Hv|rewrite is_set_bin_name; exact Hig].
+Qed.
+
+(** the round-1 witness (Properties/C01.v [refuted_cmd]): an intermediate flag that consumes three indices *)
+Definition refuted_nested_cmd : cmd :=
+  let z := (arg_new [122]) <| a_short := Some 122 |> <| a_action := Some ASetTrue |> in
+  let q := (cmd_new [113]) <| c_short_flag := Some 113 |> <| c_args := [z] |> in
+  let f := (arg_new [102]) <| a_short := Some 102 |> <| a_action := Some ASet |>
+             <| a_num := Some r_empty |> <| a_default_missing := [[97]; [98]] |> in
+  let s := (cmd_new [83]) <| c_short_flag := Some 83 |> <| c_args := [f] |> <| c_subs := [q] |> in
+  (cmd_new [112]) <| c_subs := [s] |>.
+
+(** non-vacuity and sharpness: the three witnesses of the recorded finding satisfy the hypotheses (so the exception for
+    920 is necessary) and lie outside [flag_sub_class]; on other lines the same nested definitions parse *)
+Example only_920_examples :
+  (unbuilt stale_cmd = true /\ valid stale_cmd = true /\ flag_sub_class stale_cmd = false
+   /\ parse_top stale_cmd [[112]; [45; 83; 120]; [45; 81; 121]] = OPanicked 920
+   /\ outcome_kind (parse_top stale_cmd [[112]; [45; 83; 120; 81; 121]]) = Some None          (* p -SxQy *)
+   /\ outcome_kind (parse_top stale_cmd [[112]; [45; 83]; [45; 81; 121]]) = Some None)        (* p -S -Qy *)
+  /\ (unbuilt hyphen_cmd = true /\ valid hyphen_cmd = true /\ flag_sub_class hyphen_cmd = false
+      /\ parse_top hyphen_cmd [[112]; [45; 83; 122]; [45; 255]] = OPanicked 920)
+  /\ (unbuilt hyphen2_cmd = true /\ valid hyphen2_cmd = true /\ flag_sub_class hyphen2_cmd = false)
+  /\ (unbuilt refuted_nested_cmd = true /\ valid refuted_nested_cmd = true
+      /\ parse_top refuted_nested_cmd [[112]; [45; 83; 102; 113; 122]] = OPanicked 920).
 Proof. repeat split; vm_compute; reflexivity. Qed.
